@@ -6,7 +6,12 @@ Three layers (see notes/C14.md):
      proved equal to the model's in the property file;
   2. correspondence: the model's adjacency pair sets / index maps are recomputed inside Coq
      (vm_compute) and compared with what the implementation returned, exhaustively over small shapes;
-  3. an independent geometric oracle (written from the property text) on the implementation.
+  3. an independent geometric oracle (written from the property text) on the implementation;
+  4. a history oracle: the four observables must be functions of the lattice's defining data -- repeated calls on
+     one object with in-place writes into every returned array and into the caller-owned constructor arguments
+     (Python aliasing is not part of the Coq model);
+  5. if an obligation is broken and 3./4. found nothing on the standard families: an oracle-only sweep of a
+     deeper domain (deep_families) to turn the breakage into a concrete failing input.
 """
 import itertools, math, os, sys
 import numpy as np
@@ -636,12 +641,20 @@ def run(ctx):
         "hexagonal position formulas are regenerated from the source by gen/lattice.py and proved equal to the model's "
         "functions in coq/props/C14.v; half-integer and sqrt(3)/2-scaled coordinates are represented exactly "
         "(doubled / as integer multiples), float rounding in HexagonalLattice.coord_to_index (tolerance 1e-8) is read as exactness")
+    ctx.trusted.append(
+        "C14: object state / aliasing (a lattice handing out or keeping a reference to an array the caller can write to) is "
+        "not modelled in Coq; it is covered by the history oracle of checks/C14.py on every generated lattice (testing, not proof). "
+        "The np.roll loops of IntegerLattice / TriangularLattice / the vertex part of OddFaceCenteredLattice, like the other "
+        "adjacency bodies, are matched against the source text the model was written from (gen/lattice.py, fail-closed)")
     ctx.assumes.append("extents are positive integers; BrickLattice/HexagonalLattice convention is a member of ShiftedLatticeConvention; "
                        "coordinates handed to coord_to_index of the 2-d classes are pairs")
     ctx.rules.append(
         "every lattice class, all shapes <= %s per axis (<= 3 axes for integer, <= 2 for triangular, 2-d classes <= %s x %s), "
         "all per-axis boundary combinations, both conventions, delete on/off, layered over every class with 1-3 (some bases 4-5) layers; "
-        "plus a seeded handful of larger lattices (extents up to 12); index tables cover -1..nsites+1 and the coordinate box enlarged by one in every direction. "
+        "plus fixed larger shapes (every odd/even mix at extents 6-9, 1 x N, N x 1 for the 2-d classes; integer lattices up to 4 axes) "
+        "and a seeded handful of larger lattices (extents up to 12); every accepted lattice also goes through a history "
+        "(caller-owned list/array constructor arguments modified after construction, three rounds of in-place writes into every "
+        "returned array, then the geometric oracle on the used object and on a fresh one); index tables cover -1..nsites+1 and the coordinate box enlarged by one in every direction. "
         "non-trivial = lattice with more than one site" % ("5" if ctx.thorough else "5 (3 on 3 axes)", *(("6", "6") if ctx.thorough else ("5", "5"))))
     ctx.lib(["Lattice/LatCheck"] + PROOF_TARGETS)
     ctx.log("library built")
@@ -662,11 +675,17 @@ def run(ctx):
     ctx.log("translator + property theorems compiled")
     cases = []
 
+    sampled = set()
+
     def add(t, desc, nt):
         cases.append((t, desc))
         if nt:
             ctx.nontriv(desc)
-        ctx.sample(desc)
+        # evidence samples: one non-trivial adjacency case per lattice class
+        k = desc["lattice"][0]
+        if nt and desc["op"] == "adjacency_matrix" and k not in sampled and len(t) > 120:
+            sampled.add(k)
+            ctx.sample(desc, cap=8)
 
     fams = families(ctx)
     for d in fams:
@@ -759,7 +778,7 @@ def run(ctx):
 
 def deep_families():
     """oracle-only domain used when an obligation is broken and the standard families show no violation"""
-    M = 11
+    M = 12
     for s0 in range(1, M + 1):
         for s1 in range(1, M + 1):
             for up in (True, False):
@@ -770,9 +789,9 @@ def deep_families():
                 for p1 in (False, True):
                     if not ((p0 and s0 % 2) or (p1 and s1 % 2)):
                         yield ["ofc", s0, s1, p0, p1]
-            if s0 <= 9 and s1 <= 9:
-                for pbc in itertools.product((False, True), repeat=2):
-                    yield ["tri", [s0, s1], list(pbc)]
+            for pbc in itertools.product((False, True), repeat=2):
+                yield ["tri", [s0, s1], list(pbc)]
+                if s0 <= 9 and s1 <= 9:
                     yield ["int", [s0, s1], list(pbc)]
     for n in range(1, 16):
         for p in (False, True):
